@@ -275,7 +275,12 @@ def run_property(prop, tier='quick', update_baseline=False, only=None, verbose=F
     for name, diffs in cross_fail:
         errors.append(f'CPython cross-check disagreement in {name}: {diffs}')
     if bprop and not update_baseline and not only:
-        bnames = {base_name(n) for n in bprop.get('obligations', {})}
+        # obligations attached to exceptional paths exist only while such a path is (or looks) feasible; whether an
+        # infeasible one is pruned or kept-and-vacuously-proved depends on solver budgets, so they are not part of
+        # the vacuity guard
+        def stable(n):
+            return '#signals(' not in n and '#post-raise(' not in n and '#cover(' not in n
+        bnames = {base_name(n) for n in bprop.get('obligations', {}) if stable(n)}
         now = {base_name(o.name) for o in all_obs}
         missing = sorted(bnames - now)
         changed_funcs = {r.spec.name for r in results
